@@ -309,7 +309,98 @@ def check_publish(ctx, facts):
                         trues = [s for s, k, n_ in b.defs.get(l, []) if k == "assign" and n_["rv"]["k"] == "use" and n_["rv"]["op"].get("val") == 1]
                         if falses and trues:
                             flag = (l, falses)
+                iter_gate = None
                 if flag is None:
+                    # the same check written with an iterator: `(0..n).any(|_| <a completion failed>)` / `.all(|_| <ok>)`, whose
+                    # verdict guards the publish (directly, negated, or through a bool / Result built from it)
+                    cands_ = [(b, c0, c0) for c0 in b.calls(re.compile(r"Iterator>?::(any|all)$"))]
+                    # the check may itself sit in a closure handed to a combinator of this function
+                    # (`submit_and_wait(n).and_then(|_| { .. all(..) .. })`): the combinator call then carries the verdict
+                    for cx in facts.closures_of(b):
+                        for c0 in cx.calls(re.compile(r"Iterator>?::(any|all)$")):
+                            top = cx
+                            while top.parent in facts.bodies and facts.bodies[top.parent] is not b and facts.bodies[top.parent].kind == "Closure":
+                                top = facts.bodies[top.parent]
+                            for call in b.calls():
+                                for a_ in call.node["args"]:
+                                    al_ = op_local(b.resolve_copy(a_))
+                                    d_ = b.def_rvalue(al_) if al_ is not None else None
+                                    if d_ and d_[0] == "rv" and d_[1]["k"] == "agg" and d_[1].get("akind") == "closure" and d_[1].get("name") == top.name:
+                                        cands_.append((cx, c0, call))
+                    for hb0, c0, c_ in cands_:
+                        clos = []
+                        for a_ in c0.node["args"]:
+                            al_ = op_local(hb0.resolve_copy(a_))
+                            d_ = hb0.def_rvalue(al_) if al_ is not None else None
+                            if d_ and d_[0] == "rv" and d_[1]["k"] == "agg" and d_[1].get("akind") == "closure":
+                                clos.append(facts.bodies.get(d_[1].get("name")))
+                        clos = [c2 for c2 in clos if c2 is not None]
+                        if not clos:
+                            continue
+                        cb_ = clos[0]
+                        bodies_ = [cb_] + facts.closures_of(cb_)
+                        # the completions may be pulled by a sibling closure of the same chain (`filter_map(|_| ring.completion().next()).all(..)`)
+                        sib_ = [hb0] + facts.closures_of(hb0) if hb0 is not b else bodies_
+                        if not any(x.calls(re.compile(r"CompletionQueue.*::next$|cqueue.*::next$")) for x in bodies_ + sib_):
+                            continue
+                        neg = short = False
+                        for x in bodies_:
+                            for T in all_tests(x):
+                                if T.kind != "cmp":
+                                    continue
+                                ea = show(strip_refs(expr(x, T.a))) + show(strip_refs(expr(x, T.b)))
+                                if "result" in ea:
+                                    if T.op in ("Lt", "Ge") and (const_of(x, T.b) == 0 or const_of(x, T.a) == 0):
+                                        neg = True
+                                    if T.op in ("Ne", "Eq"):
+                                        short = True
+                            for site_, st_ in x.assigns():
+                                rv_ = st_["rv"]
+                                if rv_["k"] == "bin" and "result" in (show(strip_refs(expr(x, rv_["a"]))) + show(strip_refs(expr(x, rv_["b"])))):
+                                    if rv_["op"] in ("Lt", "Ge") and (const_of(x, rv_["b"]) == 0 or const_of(x, rv_["a"]) == 0):
+                                        neg = True
+                                    if rv_["op"] in ("Ne", "Eq"):
+                                        short = True
+                        # the verdict must decide whether the publish is reached: some branch that guards the publish tests a value derived from it
+                        derived = False
+                        for T in all_tests(b):
+                            edges_ = [e_ for e_ in (T.true_edge, T.false_edge) if e_] + [e_ for e_ in getattr(T, "variant_edges", {}).values() if e_]
+                            if getattr(T, "otherwise", None) is not None:
+                                edges_.append((T.bb, T.otherwise))
+                            if not any(b.edge_guards(e_, p.bb) for e_ in edges_):
+                                continue
+                            ops_ = [T.operand] if T.kind == "local" else ([{"k": "copy", "place": T.place}] if T.kind == "discr" else (list(T.args) if T.kind == "call" else []))
+                            if T.kind == "call" and T.site is not None and (T.site.bb, T.site.idx) == (c_.bb, c_.idx):
+                                derived = True
+                            for o_ in ops_:
+                                src_, _, dsites_ = origins(b, o_, follow_all_calls=True)
+                                if any(o2.kind == "call" and o2.site is not None and (o2.site.bb, o2.site.idx) == (c_.bb, c_.idx) for o2 in src_):
+                                    derived = True
+                                # or through control: the tested value is built (`Err(..)` / `Ok(())`, `true` / `false`) on the two arms of
+                                # a branch on the verdict
+                                for T2 in all_tests(b):
+                                    e2s = [e_ for e_ in (T2.true_edge, T2.false_edge) if e_]
+                                    if not e2s or T2.kind not in ("local", "call"):
+                                        continue
+                                    if not any(b.edge_guards(e_, d_.bb) for e_ in e2s for d_ in dsites_):
+                                        continue
+                                    o2s = [T2.operand] if T2.kind == "local" else list(T2.args)
+                                    if T2.kind == "call" and T2.site is not None and (T2.site.bb, T2.site.idx) == (c_.bb, c_.idx):
+                                        derived = True
+                                    for o3 in o2s:
+                                        s3, _, _ = origins(b, o3, follow_all_calls=True)
+                                        if any(o4.kind == "call" and o4.site is not None and (o4.site.bb, o4.site.idx) == (c_.bb, c_.idx) for o4 in s3):
+                                            derived = True
+                        if derived:
+                            iter_gate = (neg, short, c_)
+                if flag is None and iter_gate is not None:
+                    neg, short, c_ = iter_gate
+                    if neg and short:
+                        ctx.ok("C04.3a", F, "the publish is decided by an any()/all() over the completions that tests result < 0 and a short write", b.relfile, c_.line)
+                    else:
+                        ctx.violate("C04.3a", F, "completion-check-incomplete", b.relfile, c_.line,
+                                    "the completion check does not test %s" % ("a negative result" if not neg else "a short write"))
+                elif flag is None:
                     ctx.violate("C04.3a", F, "publish-not-gated-by-completion-check", b.relfile, p.line, "the io_uring publish is not guarded by a flag that the completion loop clears on failure")
                 else:
                     l, falses = flag
@@ -461,6 +552,45 @@ def check_rollback(ctx, facts):
                                 "the io_uring helper rolls back through `&mut u64` only; it does not receive the block guard, so a rotated batch cannot be undone")
 
 
+_PLAN = {}
+
+
+def plan_shape(facts):
+    """The element type of the batch write plan, by role: the slice parameter of submit_batch_via_io_uring whose elements
+    carry a Block.  Returns (type string, block field, offset field, index field) - field names as they appear at the end
+    of an expression text ('.0', '.1', '.2' for the tuple form; the struct's field names otherwise)."""
+    if id(facts) in _PLAN:
+        return _PLAN[id(facts)]
+    res = ("(wal::block::Block, u64, usize)", "0", "1", "2")
+    try:
+        u = facts.body("writer::Writer::submit_batch_via_io_uring")
+        for i in range(1, u.arg_count + 1):
+            m = re.match(r"^&(?:mut )?(?:\[(.+)\]|std::vec::Vec<(.+)>)$", u.local_ty(i))
+            if not m:
+                continue
+            et = m.group(1) or m.group(2)
+            if et.startswith("(") and "wal::block::Block" in et:
+                parts = [x.strip() for x in et.strip("()").split(",")]
+                bi = next((str(k) for k, x in enumerate(parts) if x == "wal::block::Block"), "0")
+                oi = next((str(k) for k, x in enumerate(parts) if x == "u64"), "1")
+                ii = next((str(k) for k, x in enumerate(parts) if x == "usize"), "2")
+                res = (et, bi, oi, ii)
+                break
+            adt = facts.adts.get(et)
+            if adt and adt.get("variants") and len(adt["variants"]) == 1:
+                fl = adt["variants"][0].get("fields", [])
+                bf = [f_["name"] for f_ in fl if f_.get("ty") == "wal::block::Block"]
+                of = [f_["name"] for f_ in fl if f_.get("ty") == "u64"]
+                xf = [f_["name"] for f_ in fl if f_.get("ty") == "usize"]
+                if len(bf) == 1 and len(of) == 1:
+                    res = (et, bf[0], of[0], xf[0] if len(xf) == 1 else None)
+                    break
+    except Exception:
+        pass
+    _PLAN[id(facts)] = res
+    return res
+
+
 def _zero_loops(facts, b):
     """(call site, loop, problems) for every Block::zero_range call of body b"""
     out = []
@@ -480,7 +610,7 @@ def _zero_loops(facts, b):
             problems.append("not-in-a-loop-over-the-plan")
         else:
             t = b.term(hb)
-            if not (t["k"] == "call" and re.search(r"Iterator>::next$|Iterator::next$", strip_generics(t.get("callee") or "")) and "(wal::block::Block, u64, usize)" in b.local_ty(t["dest"]["l"])):
+            if not (t["k"] == "call" and re.search(r"Iterator>::next$|Iterator::next$", strip_generics(t.get("callee") or "")) and plan_shape(facts)[0] in b.local_ty(t["dest"]["l"])):
                 problems.append("loop-does-not-iterate-the-plan")
             # bypass: header reachable again from inside the loop without passing the zeroing call
             inner = [x for x in b.succ[hb] if x in L]
@@ -495,7 +625,8 @@ def _zero_loops(facts, b):
                     break
                 work.extend(b.succ[n])
             a = [show(strip_refs(expr(b, x)), 8) for x in z.node["args"]]
-            if not (a[0].endswith(".0") and a[1].endswith(".1") and "next(" in a[0] and "next(" in a[1]):
+            _, bf_, of_, _x = plan_shape(facts)
+            if not (a[0].endswith("." + bf_) and a[1].endswith("." + of_) and "next(" in a[0] and "next(" in a[1]):
                 problems.append("zeroes-something-else-than-the-planned-header")
             if fmtfeat.const_eval(strip_refs(expr(b, z.node["args"][2]))) != P:
                 problems.append("zeroes-less-than-a-header")
